@@ -1240,6 +1240,14 @@ void ppDiv(word q[], word r[], const word a[], size_t n, const word b[],
 	ASSERT(m > 0 && b[m - 1] > 0);
 	ASSERT(wwIsDisjoint2(q, n + 1 - m, r, m));
 	ASSERT(a == r || wwIsDisjoint2(a, n, r, m));
+	// b == 1?
+	if (m == 1 && b[0] == 1)
+	{
+		// q <- a, r <- 0
+		wwCopy(q, a, n);
+		r[0] = 0;
+		return;
+	}
 	// deg(a) < deg(b)?
 	if (wwBitSize(a, n) < wwBitSize(b, m))
 	{
@@ -1265,17 +1273,20 @@ void ppDiv(word q[], word r[], const word a[], size_t n, const word b[],
 	// нормализация не нужна?
 	if (shift == 0)
 		// обнуляем старшие слова q и r
-		q[n - m] = 0, r[--m] = 0;
+		// (divident[n] == 0 => слово частного с номером n - m нулевое, 
+		// и поэтому цикл по разрядам делимого начинается с n - 1)
+		q[n - m] = 0, r[--m] = 0, i = n - 1;
 	else
 		// сдвигаем divisor и divident
 		shift = B_PER_W - shift,
 		wwShHi(divident, n + 1, shift),
-		wwShHi(divisor, m, shift);
+		wwShHi(divisor, m, shift),
+		i = n;
 	// строим таблицы
 	_DIV_PRE_S4(w1, divisor[m - 1]);
 	_MUL_PRE_S4(w2, divisor[m - 1]);
 	// цикл по разрядам делимого
-	for (i = n; i >= m; --i)
+	for (; i >= m; --i)
 	{
 		// q[i - m] <- divident[i] \div divisor[m - 1]
 		dividentHi = divident[i];
@@ -1316,6 +1327,12 @@ void ppMod(word r[], const word a[], size_t n, const word b[], size_t m,
 	ASSERT(wwIsValid(a, n) && wwIsValid(b, m));
 	ASSERT(m > 0 && b[m - 1] > 0);
 	ASSERT(a == r || wwIsDisjoint2(a, n, r, m));
+	// b == 1?
+	if (m == 1 && b[0] == 1)
+	{
+		r[0] = 0;
+		return;
+	}
 	// deg(a) < deg(b)?
 	if (wwBitSize(a, n) < wwBitSize(b, m))
 	{
